@@ -839,6 +839,30 @@ def drop_body_uses(toks, log):
     return toks
 
 
+def desugar_mut_self(toks, fn_name, log):
+    """R41: `fn f(mut self, ..) -> T { BODY }` (Verus has no `mut self`) is `fn f(self, ..) -> T { let mut __self = self; BODY' }` where BODY' is BODY with
+    every `self` replaced by `__self`: a by-value receiver bound mutably is a local."""
+    toks = list(toks)
+    f = find_fn(toks, fn_name)
+    bo, bc = f['body_open'], f['body_close']
+    # the receiver: `( mut self`
+    k = f['name']
+    while k < bo and not _is(toks[k], 'punct', '('):
+        k += 1
+    a = _next_sig(toks, k)
+    b = _next_sig(toks, a) if a is not None else None
+    if a is None or b is None or not (toks[a].kind == 'ident' and toks[a].text == 'mut' and toks[b].kind == 'ident' and toks[b].text == 'self'):
+        return toks
+    for q in range(bo + 1, bc):
+        if toks[q].kind == 'ident' and toks[q].text == 'self':
+            toks[q] = Tok('ident', '__self', toks[q].pos, toks[q].line)
+    ins = Tok('subst', ' let mut __self = self; ', toks[bo].pos, toks[bo].line)
+    toks = toks[:bo + 1] + [ins] + toks[bo + 1:]
+    toks = toks[:a] + toks[a + 1:]
+    log.append(('R41', '`mut self` receiver written as a mutable local bound to `self`', toks[k].line))
+    return relex(toks)
+
+
 def desugar_get_or_insert_with(toks, log):
     """R19c: a statement `PLACE.get_or_insert_with(|| EXPR);` (result unused; this vstd has no specification for it) is written as the definition std gives it:
     `if PLACE.is_none() { PLACE = Some(EXPR); }`. Any other use (the returned reference is used, a closure with parameters) is left alone and stays outside the subset."""
